@@ -42,6 +42,8 @@ type Net struct {
 	Conns     []*Conn
 	listeners map[string]*Listener
 	SegChoice bool // stream reads: the explorer chooses how many bytes are delivered
+	SegBudget int  // > 0: at most this many reads per execution are cut short (a deviation bound on segmentation)
+	segUsed   int
 	NoTap     bool
 }
 
@@ -181,13 +183,15 @@ func (c *Conn) Read(b []byte) (int, error) {
 		if p.eofCut > 0 && nn > p.eofCut {
 			nn = p.eofCut
 		}
-		if c.n.SegChoice && nn > 1 && vrt.Active() {
+		if c.n.SegChoice && nn > 1 && vrt.Active() && (c.n.SegBudget == 0 || c.n.segUsed < c.n.SegBudget) {
 			// deliver everything, one byte, or all but one byte
 			switch vrt.Choose(3, "seg") {
 			case 1:
 				nn = 1
+				c.n.segUsed++
 			case 2:
 				nn = nn - 1
+				c.n.segUsed++
 			}
 		}
 		copy(b, p.buf[:nn])
